@@ -14,7 +14,7 @@ def run(tier):
     progs += [en.Prog("flat3-lim1", en.st.CURATED["flat3"], sublimit=1), en.Prog("flat3-lim1", en.st.CURATED["flat3"], sublimit=1, manual=True),
               en.Prog("deep3-lim1", en.st.CURATED["deep3"], sublimit=1, manual=True)]
     args = ["--tier", tier, "--dev", "2" if thorough else "1", "--batch", "2", "--classes", str(en.cls("REQ", "GUARD")),
-            "--dev-immediate", "1", "--imm-reduced", "0" if thorough else "1", "--deadline", str(1500 if thorough else 150)]
+            "--dev-immediate", "1", "--imm-reduced", "0" if thorough else "1", "--deadline", str(en.TD if thorough else 150)]
     if thorough:
         args += ["--initial-cancel", "1"]
     if not thorough:
@@ -31,7 +31,7 @@ def run(tier):
             p.args = ["--dev", "1", "--batch", "1", "--deadline", "90"]
         progs += fam
         chk.coverage["program_families"] = {"programs": len(fam), "rule": "all ordered trees with <= 4 states (every region kind headed; composite/resumable/orthogonal also headless) + spine family (kind chains of depth 3 in two orientations, depth 4 over C/O/R)"}
-    res = en.run_all(chk, "C09", progs, args, timeout=(2400 if thorough else 400))
+    res = en.run_all(chk, "C09", progs, args, timeout=(en.TD + 900 if thorough else 400))
     en.aggregate(chk, res, "C09")
     chk.coverage["explanation"] = (
         "After every explored processing edge (all single requests, all ordered batches, requests from callbacks, every "
